@@ -9,6 +9,7 @@ import (
 	"strings"
 
 	"pgregory.net/rapid"
+	"verif/harness/gen"
 )
 
 func genMAC(t *rapid.T, pool int) string {
@@ -122,6 +123,24 @@ func GenStatic(t *rapid.T) Case {
 	c := Case{Sub: "static", V6: rapid.Bool().Draw(t, "v6")}
 	c.Lines = genLines(t, c.V6, true, 0)
 	c.NoNL = rapid.IntRange(0, 3).Draw(t, "nonl") == 0
+	if !c.V6 && rapid.IntRange(0, 2).Draw(t, "hist") == 0 {
+		// requests of every kind (any message type, ciaddr/giaddr, options) from listed and other clients
+		var macs []string
+		for _, l := range c.Lines {
+			if l.Kind == "entry" && len(l.MAC) <= 32 {
+				macs = append(macs, l.MAC)
+			}
+		}
+		n := rapid.IntRange(1, 6).Draw(t, "nhist")
+		for i := 0; i < n; i++ {
+			p := gen.GenPkt4(t)
+			if len(macs) > 0 && rapid.IntRange(0, 3).Draw(t, "listed") > 0 {
+				p.CHAddr = rapid.SampledFrom(macs).Draw(t, "hist-mac")
+				p.HLen, p.Op, p.HType = uint8(len(p.CHAddr)/2), 1, 1
+			}
+			c.Hist = append(c.Hist, hex.EncodeToString(p.Bytes()))
+		}
+	}
 	return c
 }
 
